@@ -91,22 +91,71 @@ func (fe *FnExec) doCallWith(fr *frame, st *State, in ssa.Instruction, cc *ssa.C
 			}
 		}
 	}
+	var preSt *State
+	if fr.con != nil && (fr.con.Calls[site] != nil || len(fr.con.Ghosts) > 0) {
+		preSt = st.clone()
+	}
+	var res Val
+	done := false
 	if key != "" {
 		if con := fe.eng.contracts[key]; con != nil && !con.Inline {
 			fe.used[key] = true
-			return fe.applyContract(fr, st, in, site, con, sig, full, rt, cc.IsInvoke() || (sig != nil && sig.Recv() != nil))
+			res = fe.applyContract(fr, st, in, site, con, sig, full, rt, cc.IsInvoke() || (sig != nil && sig.Recv() != nil))
+			done = true
 		}
 	}
 	// inline function literals that are called directly (deferred closures, immediately invoked)
-	if fv, ok := fnv.(FuncV); ok && fv.Fn != nil && len(fv.Fn.Blocks) > 0 {
-		con := fe.eng.contracts[fnKey(fv.Fn)]
-		if fv.Fn.Parent() != nil || (con != nil && con.Inline) {
-			if fr.depth < 3 {
-				return fe.inlineCall(fr, st, in, fv, args, rt)
+	if !done {
+		if fv, ok := fnv.(FuncV); ok && fv.Fn != nil && len(fv.Fn.Blocks) > 0 {
+			con := fe.eng.contracts[fnKey(fv.Fn)]
+			if fv.Fn.Parent() != nil || (con != nil && con.Inline) {
+				if fr.depth < 3 {
+					res = fe.inlineCall(fr, st, in, fv, args, rt)
+					done = true
+				}
 			}
 		}
 	}
-	return fe.unknownCall(fr, st, key, cc, full, rt)
+	if !done {
+		res = fe.unknownCall(fr, st, key, cc, full, rt)
+	}
+	// caller-side assumptions and ghost updates keyed to this call site
+	if fr.con != nil && preSt != nil {
+		var rvs []Val
+		if tv, ok := res.(TupleV); ok {
+			rvs = tv.E
+		} else {
+			rvs = []Val{res}
+		}
+		bind := func(ctx *EvalCtx) {
+			ctx.old = preSt
+			for i, v := range full {
+				ctx.binds[fmt.Sprintf("arg%d", i)] = v
+			}
+			if sig != nil {
+				ctx.bindResults(sig, rvs)
+			} else if len(rvs) > 0 {
+				ctx.binds["result"] = rvs[0]
+			}
+		}
+		if cs := fr.con.Calls[site]; cs != nil {
+			for _, a := range cs.Assumes {
+				ctx := fe.ctxFor(fr, st)
+				bind(ctx)
+				fe.assume(tImp(st.pc, ctx.evalBool(a.X)), "site assumption "+a.Label)
+				fe.eng.noteSiteAssume(fr.name, site, a)
+			}
+		}
+		for _, g := range fr.con.Ghosts {
+			if g.After == site {
+				ctx := fe.ctxFor(fr, st)
+				bind(ctx)
+				nv := ctx.eval(g.RHS.E)
+				fe.assignLvalue(ctx, st, g.LHS, nv)
+			}
+		}
+	}
+	return res
 }
 
 func resultType(sig *types.Signature) types.Type {
@@ -353,33 +402,6 @@ func (fe *FnExec) applyContract(fr *frame, st *State, in ssa.Instruction, site s
 		ictx.bindResults(isig, rvs)
 		for _, en := range ic.Ensures {
 			fe.assume(tImp(st.pc, ictx.evalBool(en.X)), fmt.Sprintf("ensures %s of %s (implemented by %s)", en.Label, shortKey(ik), shortKey(con.Key)))
-		}
-	}
-	if fr.con != nil {
-		if cs := fr.con.Calls[site]; cs != nil {
-			for _, a := range cs.Assumes {
-				ctx := fe.ctxFor(fr, st)
-				ctx.old = pre
-				for i, v := range full {
-					ctx.binds[fmt.Sprintf("arg%d", i)] = v
-				}
-				ctx.bindResults(sig, rvs)
-				fe.assume(tImp(st.pc, ctx.evalBool(a.X)), "site assumption "+a.Label)
-				fe.eng.noteSiteAssume(fr.name, site, a)
-			}
-		}
-		// ghost updates after this call
-		for _, g := range fr.con.Ghosts {
-			if g.After == site {
-				ctx := fe.ctxFor(fr, st)
-				ctx.old = pre
-				ctx.bindResults(sig, rvs)
-				for i, v := range full {
-					ctx.binds[fmt.Sprintf("arg%d", i)] = v
-				}
-				nv := ctx.eval(g.RHS.E)
-				fe.assignLvalue(ctx, st, g.LHS, nv)
-			}
 		}
 	}
 	return res
